@@ -118,6 +118,9 @@ def axes_case(ctx, core, n, fshape, method):
                 foreign = [t for t in ftags if not (t[1] == fi and t[2] in ((j,), ()))]
                 if foreign or not own:
                     problems.append('entry %s built from %s' % (idx, sorted(ftags)[:4]))
+                wrong_steps = sorted(t for t in tags_of(e) if t[0] == 'hstep' and t[1] != j)
+                if wrong_steps:
+                    problems.append('entry %s is scaled with the step of coordinate %s' % (idx, [t[1] for t in wrong_steps]))
         rep.check(not problems, 'R-AXES', construct, core.relpath,
                   {'result_shape': list(shape), 'expected_shape': list(expected), 'problems': problems[:3], 'path': path},
                   'entry [i, j(, l)] from f[i(, l)] perturbed along j only', label, key='axes f->%s' % (fshape,))
